@@ -369,15 +369,15 @@ func (fr *Frame) locOf(p ssa.Value) *Loc {
 		case *types.Slice:
 			s := fr.val(pv.X)
 			i := fr.val(pv.Index)
-			es := U.sortOf(xtt.Elem())
-			return &Loc{kind: "elem", heap: "E|" + es, hsort: arrSort(SInt, arrSort(SInt, es)), idx: sx("sarr", s.T), idx2: sx("+", sx("soff", s.T), i.T), typ: xtt.Elem()}
+			hn, hs := U.elemHeapT(xtt.Elem())
+			return &Loc{kind: "elem", heap: hn, hsort: hs, idx: sx("sarr", s.T), idx2: sx("+", sx("soff", s.T), i.T), typ: xtt.Elem()}
 		case *types.Pointer:
 			at := xtt.Elem().Underlying().(*types.Array)
-			es := U.sortOf(at.Elem())
+			ehn, ehs := U.elemHeapT(at.Elem())
 			i := fr.val(pv.Index)
 			if fr.isArrayAlloc(pv.X) {
 				a := fr.val(pv.X)
-				return &Loc{kind: "elem", heap: "E|" + es, hsort: arrSort(SInt, arrSort(SInt, es)), idx: a.T, idx2: i.T, typ: at.Elem()}
+				return &Loc{kind: "elem", heap: ehn, hsort: ehs, idx: a.T, idx2: i.T, typ: at.Elem()}
 			}
 			bl := fr.locOf(pv.X)
 			return &Loc{kind: "arrelem", base: bl, aidx: i.T, typ: at.Elem()}
@@ -393,8 +393,8 @@ func (fr *Frame) locOf(p ssa.Value) *Loc {
 	if isStruct(elem) {
 		return &Loc{kind: "struct", idx: v.T, typ: elem}
 	}
-	es := U.sortOf(elem)
-	return &Loc{kind: "field", heap: "P|" + es, hsort: arrSort(SInt, es), idx: v.T, typ: elem}
+	phn, phs := U.ptrHeapT(elem)
+	return &Loc{kind: "field", heap: phn, hsort: phs, idx: v.T, typ: elem}
 }
 
 // isArrayAlloc reports whether p is an Alloc of array type (modelled as a
@@ -431,7 +431,7 @@ func (fr *Frame) nilCheck(p ssa.Value, pos token.Pos, what string) {
 
 // safety emits an implicit no-panic obligation.
 func (fr *Frame) safety(kind, what string, pos token.Pos, cond Term) {
-	if fr.vc.eng.noSafety {
+	if fr.vc.noSafety {
 		fr.vc.assume(fr.reach, cond)
 		return
 	}
@@ -533,6 +533,7 @@ func (fr *Frame) storeLoc(l *Loc, v Term) {
 		return
 	case "arrelem":
 		arr := fr.loadLoc(l.base)
+		fr.U().arrSetUsed(arr.S)
 		fr.storeLoc(l.base, sx("aset!"+arr.S, arr.T, l.aidx, v))
 		return
 	}
@@ -819,8 +820,8 @@ func (fr *Frame) enterLoop(li *loopInfo, ins []edgeIn) {
 		if unmod != nil && unmod[n] {
 			continue
 		}
-		if n == "$alloc" {
-			continue
+		if n == "$alloc" || n == lockW || n == lockR {
+			continue // lock state is loop-invariant by the lock.balance@loop obligation at every back edge
 		}
 		vc.initHeap(n, vc.known[n])
 		vc.havocHeap(fr.st, n)
